@@ -92,7 +92,7 @@ impl Monitor for C14 {
             "medium-soft" => gener::GenCfg::medium().with_soft(4),
             n => family(n),
         };
-        let (name, (u, mut p)) = if r.chance(1, 12) { ("soft-backjump", gener::soft_backjump(r)) } else if r.chance(1, 10) { ("soft-learn-reject", gener::soft_learn_reject(r)) } else { (name, gener::generate(r, &cfg)) };
+        let (name, (u, mut p)) = if r.chance(1, 12) { ("soft-backjump", gener::soft_backjump(r)) } else if r.chance(1, 10) { ("soft-learn-reject", gener::soft_learn_reject(r)) } else if r.chance(1, 10) { ("soft-exempt", gener::soft_exempt(r)) } else { (name, gener::generate(r, &cfg)) };
         if p.soft.is_empty() && !u.solvs.is_empty() {
             p.soft.push(r.below(u.solvs.len() as u64) as u32);
         }
@@ -165,13 +165,18 @@ impl Monitor for C14 {
                             if set.contains(&x) {
                                 continue;
                             }
-                            // no requirements: the closure of x is x itself. Its constrains may mention
-                            // packages (fetching their candidates can reveal the lock / exclusion list
-                            // of a soft-named solvable accepted earlier, which keeps its exemption:
+                            // nothing new has to be installed for x: it has no requirements, or every
+                            // requirement is already met by a solvable of the returned set (the closure
+                            // of x on top of that set is x itself). Its requirements / constrains may
+                            // mention packages (fetching their candidates can reveal the lock / exclusion
+                            // list of a soft-named solvable accepted earlier, which keeps its exemption:
                             // D15, D19) - whether x fits is decided by the reference rules below
-                            let free = matches!(&u.solvs[x as usize].deps, Deps::Known { reqs, .. } if reqs.is_empty());
+                            let free = matches!(&u.solvs[x as usize].deps, Deps::Known { reqs, .. } if reqs.iter().all(|&r| rf.req_has(r, |s| set.contains(&s))));
                             if !free {
                                 continue;
+                            }
+                            if matches!(&u.solvs[x as usize].deps, Deps::Known { reqs, .. } if !reqs.is_empty()) {
+                                ctx.rep.count("soft-solvables-with-already-met-requirements-rejected");
                             }
                             if matches!(&u.solvs[x as usize].deps, Deps::Known { cons, .. } if !cons.is_empty()) {
                                 ctx.rep.count("requirement-free-soft-solvables-with-constrains-rejected");
